@@ -402,6 +402,9 @@ class Canon:
                 continue
             elif isinstance(st, ast.Expr) and isinstance(st.value, ast.Constant) and isinstance(st.value.value, str):
                 continue
+            elif isinstance(st, ast.AnnAssign) and st.value is not None and isinstance(st.target, ast.Name):
+                plain = ast.Assign(targets=[st.target], value=st.value, lineno=st.lineno, col_offset=st.col_offset)  # the annotation is not part of the behaviour
+                out.append(self.text(plain, inline, order))
             else:
                 try:
                     out.append(self.text(st, inline, order))
